@@ -56,7 +56,8 @@ def valid_calls(n, nd, va, vk):
         opt = [x for x in rest if x not in req]
         for r in range(len(opt) + 1):
             for sub in itertools.combinations(opt, r):
-                for extra in (((), ('z',), ('y', 'z')) if vk else ((),)):
+                # undeclared keywords (into **kw): plain names, and names spelled like the function's own *args / **kw parameters
+                for extra in (((), ('z',), ('y', 'z'), ('args',), ('kw', 'z')) if vk else ((),)):
                     kwnames = list(req) + list(sub) + list(extra)
                     for order in ((kwnames, kwnames[::-1]) if len(kwnames) > 1 else (kwnames,)):
                         pos = tuple('p%d' % i for i in range(p))
@@ -502,7 +503,7 @@ def run(tier, seed):
     quick = tier == 'quick'
     wnames = list(decorators())
     c = Collector('C18', rule='every signature shape (0-4 positional parameters x 0..n trailing defaults x *args x **kw = 60 functions echoing their bound arguments); every valid call: p positional '
-                  'values (up to 2 into *args), remaining required parameters by keyword, every subset of the remaining optional ones by keyword (two keyword orders), 0-2 undeclared keywords '
+                  'values (up to 2 into *args), remaining required parameters by keyword, every subset of the remaining optional ones by keyword (two keyword orders), 0-2 undeclared keywords (also ones spelled like the *args / **kw parameters) '
                   'into **kw; per call: getcallargs vs inspect.getcallargs, call_with_callargs round trip, W(f)(call) == f(call) for W in try_none, try_zero, try_back, kwargs_support, cache, '
                   'loop(list,tuple,dict), pd2np (argument values are opaque strings: non-container, non-pandas), fallback of try_* on a raising twin of f, kwargs_support with 1-2 extra '
                   'keywords on functions without **kw; per shape: getargspec(W(f)) vs f, every stack of <= 3 decorators against its normal form (inner duplicates removed) by ==, argspec '
